@@ -563,3 +563,39 @@ def loop_carried(loop: ast.For) -> list[tuple[str, ast.AST]]:
     A = du.target(loop.target, set())
     du.block(loop.body, A)
     return du.carried
+
+
+# ------------------------------------------------------------------------------------------------ effective guards
+def effective_guards(node: ast.AST, stop: ast.AST):
+    """The conditions under which `node` is reached inside `stop`, as [(test text with leading `not`s folded into the polarity, polarity)]: the tests of the enclosing
+    ifs (by branch) AND, in every enclosing statement list, the tests of the EARLIER `if <t>: ... continue / break / return / raise` statements (without else), negated -
+    the early-exit idiom `if is_address(x): continue` guards everything after it just like an enclosing `if not is_address(x):`."""
+    from .model import parent as _parent
+    out = []
+
+    def norm(t, pol):
+        while isinstance(t, ast.UnaryOp) and isinstance(t.op, ast.Not):
+            t, pol = t.operand, not pol
+        return ast.unparse(t), pol
+
+    def leaves(body):
+        last = body[-1] if body else None
+        return isinstance(last, (ast.Continue, ast.Break, ast.Return, ast.Raise))
+
+    cur = enclosing_stmt(node)
+    while cur is not None and cur is not stop:
+        par = _parent(cur)
+        if par is None:
+            break
+        for fname in ('body', 'orelse', 'finalbody'):
+            lst = getattr(par, fname, None)
+            if isinstance(lst, list) and cur in lst:
+                for st in lst[:lst.index(cur)]:
+                    if isinstance(st, ast.If) and not st.orelse and leaves(st.body):
+                        out.append(norm(st.test, False))
+                if isinstance(par, ast.If):
+                    out.append(norm(par.test, fname == 'body'))
+        cur = par if isinstance(par, ast.stmt) else (_parent(par) if par is not stop else None)
+        if cur is stop:
+            break
+    return out
